@@ -669,7 +669,8 @@ def _check_assemble(ctx: Ctx, rel: str, fn: ast.FunctionDef, cls_methods: dict) 
               construct=f"empty {A} <- {[u(s.value) for s in empt]}")
 
     # ---- parsed dict D and the zipped loops -----------------------------------------------------
-    loops = [n for n in walk_local(fn) if isinstance(n, ast.For) and isinstance(n.iter, ast.Call) and call_name(n.iter) == "zip"]
+    # every for loop is a candidate; a loop that does not zip at all pairs its blocks with nothing (handled in zip_roles)
+    loops = [n for n in walk_local(fn) if isinstance(n, ast.For)]
 
     def appends_to(loop, L):
         return [c for c in walk_local(loop) if isinstance(c, ast.Call) and isinstance(c.func, ast.Attribute) and c.func.attr == "append"
@@ -679,7 +680,7 @@ def _check_assemble(ctx: Ctx, rel: str, fn: ast.FunctionDef, cls_methods: dict) 
     res_loops = [l for l in loops if appends_to(l, Lr) and not appends_to(l, Lm)]
     if len(full_loops) != 1 or len(res_loops) != 1:
         # appends outside zipped loops?
-        raise Undecided(f"{q}: expected one zipped loop filling {Lm}+{Lr} and one filling only {Lr}; found {len(full_loops)}/{len(res_loops)}")
+        raise Undecided(f"{q}: expected one loop filling {Lm}+{Lr} and one filling only {Lr}; found {len(full_loops)}/{len(res_loops)}")
 
     Dname: list[str] = []
     # do not inline through the parsed dict itself
@@ -721,10 +722,16 @@ def _check_assemble(ctx: Ctx, rel: str, fn: ast.FunctionDef, cls_methods: dict) 
     def zip_roles(loop: ast.For) -> dict[str, str]:
         z = loop.iter
         tg = loop.target
-        if not isinstance(tg, ast.Tuple) or len(tg.elts) != len(z.args) or z.keywords:  # type: ignore[union-attr]
-            raise Undecided(f"{q}: zip targets/arguments mismatch")
+        if isinstance(z, ast.Call) and call_name(z) == "zip":
+            if not isinstance(tg, ast.Tuple) or len(tg.elts) != len(z.args) or z.keywords:
+                raise Undecided(f"{q}: zip targets/arguments mismatch")
+            pairs = list(zip(tg.elts, z.args))
+        elif isinstance(tg, ast.Name):
+            pairs = [(tg, z)]  # a plain loop over one sequence: nothing is paired with it
+        else:
+            raise Undecided(f"{q}: block loop is neither a zip nor a loop over one sequence: {u(z)[:60]}")
         roles = {}
-        for t, a in zip(tg.elts, z.args):  # type: ignore[union-attr]
+        for t, a in pairs:
             role, d = classify_zip_arg(a)
             ok = role != "bad"
             if ok:
@@ -749,8 +756,16 @@ def _check_assemble(ctx: Ctx, rel: str, fn: ast.FunctionDef, cls_methods: dict) 
               construct=f"{D} <- {u(dval) if dval is not None else None}")
     for need, roles, nm in (({"rows", "results", "names"}, rolesF, "full"), ({"rows", "results"}, rolesR, "residual-only")):
         if not need <= set(roles):
-            ctx.check("R3", False, rel, q, full_loops[0] if nm == "full" else res_loops[0],
-                      f"{nm} loop must zip {sorted(need)}; found {sorted(roles)}", construct=f"{nm} zip roles {sorted(roles)}")
+            missing = sorted(need - set(roles))
+            msg = f"{nm} loop must pair {sorted(need)} by position; found only {sorted(roles)}"
+            if "rows" in missing and nm == "residual-only":
+                msg = ("residual-only arm must apply the same row selectors as the full arm: its loop does not pair the row "
+                       f"selectors of the parsed dict with the evaluated operators (found only {sorted(roles)}), so a grid "
+                       "restriction is ignored when evaluate_jacobian=False")
+            elif "rows" in missing:
+                msg = f"full arm does not pair the row selectors with the evaluated operators (found only {sorted(roles)})"
+            ctx.check("R3", False, rel, q, full_loops[0] if nm == "full" else res_loops[0], msg,
+                      construct=f"{nm} loop pairs {sorted(roles)}; missing {missing}")
             return
     # same operator list + same state in both evaluate calls
     evs = [c for c in walk_local(fn) if isinstance(c, ast.Call) and isinstance(c.func, ast.Attribute) and c.func.attr == "evaluate" and u(c.func.value) == "self"]
@@ -1072,6 +1087,12 @@ MUTANTS = [
     _m("rhs-not-sliced", "                    rhs.append(ad.val[row])\n", "                    rhs.append(ad.val)\n", "R3", control=True),
     _m("mat-not-sliced", "                    mat.append(ad.jac.tocsr()[row])\n", "                    mat.append(ad.jac.tocsr())\n", "R3"),
     _m("residual-arm-not-sliced", "                    rhs.append(val[row])\n", "                    rhs.append(val)\n", "R3"),
+    _m("seed-residual-arm-drops-row-restriction",
+       "            for row, val in zip(rows, values):\n                # The residual of individual equations can be a scalar or an array.\n"
+       "                # Forcing to array to ensure consistent handling.\n                val = np.asarray(val)\n"
+       "                if row is not None:\n                    rhs.append(val[row])\n                else:\n                    rhs.append(val)\n",
+       "            for val in values:\n                # The residual of individual equations can be a scalar or an array.\n"
+       "                # Forcing to array to ensure consistent handling.\n                rhs.append(np.asarray(val))\n", "R3"),
     _m("residual-arm-sign", "        if not evaluate_jacobian:\n            return -rhs_cat\n", "        if not evaluate_jacobian:\n            return rhs_cat\n", "R3", control=True),
     _m("names-zipped-from-all-equations", "for row, equ_name, ad in zip(rows, equ_blocks, ad_list):", "for row, equ_name, ad in zip(rows, self._equations, ad_list):", "R3"),
     _m("rows-reversed", "        rows = list(equ_blocks.values())\n", "        rows = list(equ_blocks.values())[::-1]\n", "R3"),
